@@ -366,6 +366,7 @@ func (txn *Txn) insert(fn func(Row) error, expireAt int64) (uint32, error) {
 
 	// At a new index, add the insertion marker
 	idx := txn.owner.next()
+	verifYield("i.reserved", idx)
 	txn.bufferFor(rowColumn).PutOperation(commit.Insert, idx)
 
 	// If there was an error during insertion, free the index so it can be re-used
@@ -444,6 +445,7 @@ func (txn *Txn) InsertKey(key string, fn func(Row) error) error {
 	}
 
 	// If not found, insert at a new index
+	verifYield("k.check", 0)
 	idx, err := txn.insert(fn, 0)
 	txn.bufferFor(txn.owner.pk.name).PutString(commit.Put, idx, key)
 	return err
@@ -460,6 +462,7 @@ func (txn *Txn) UpsertKey(key string, fn func(Row) error) error {
 	}
 
 	// If not found, insert at a new index
+	verifYield("k.check", 1)
 	idx, err := txn.insert(fn, 0)
 	txn.bufferFor(txn.owner.pk.name).PutString(commit.Put, idx, key)
 	return err
@@ -530,6 +533,7 @@ func (txn *Txn) commit() {
 		if changedRows {
 			txn.commitMarkers(chunk, fill, markers)
 		}
+		verifYield("w.mid", uint32(chunk))
 
 		// Attemp to update, if nothing was changed we're done
 		updated := txn.commitUpdates(chunk)
@@ -538,6 +542,7 @@ func (txn *Txn) commit() {
 		}
 
 		// If there is a pending snapshot, append commit into a temp log
+		verifYield("w.rec", uint32(chunk))
 		if dst, ok := txn.owner.isSnapshotting(); ok {
 			dst.Append(commit.Commit{
 				ID:      commitID,
@@ -546,6 +551,7 @@ func (txn *Txn) commit() {
 			})
 		}
 
+		verifYield("w.log", uint32(chunk))
 		if txn.logger != nil {
 			txn.logger.Append(commit.Commit{
 				ID:      commitID,
@@ -572,9 +578,11 @@ func (txn *Txn) commitUpdates(chunk commit.Chunk) (updated bool) {
 		// Apply the updates on the column itself first. This may result in a modified
 		// buffer caused by merge updates, so we need to range our indexes separately.
 		updated = true
+		verifYield("w.col", uint32(chunk))
 		txn.reader.Range(u, chunk, func(r *commit.Reader) {
 			columns[0].Apply(chunk, r)
 		})
+		verifYield("w.computed", uint32(chunk))
 
 		// Range through all of the computed columns and apply the final state updates.
 		if len(columns) > 1 {
